@@ -184,7 +184,7 @@ def step (d : DState) (opLine : String) (impl : String) : DState × StepOut :=
           [s!"sig=C05.wrong-suffix-cluster"]) ++
         tableFails PdModel.Generated.TsoGlobal.maxSuffixBits [] t
       (d, { model := impl, fails := fails })
-    | ["bigreq", _, cnt] =>
+    | ["bigreq", _, cnt] | ["joinlate", _, cnt] =>
       -- large sequential requests: judged by the monitor only (like a burst)
       let parts := impl.splitOn " | "
       let gs := ((words (parts.headD "")).drop 1).filterMap parseGrant
